@@ -6,10 +6,12 @@ type stream = {
   check : Sexp.t -> Sexp.t -> [ `Ok | `Mismatch of string | `Property of string ] * bool;
   search : Sexp.t -> emit:(Sexp.t -> unit) -> unit;
   describe : Sexp.t -> string * int;
+  tags : Sexp.t -> Sexp.t -> string list;
 }
 
 let streams : (string * stream) list = [
-  ("C11", { gen = C11.gen; check = C11.check; search = C11.search; describe = C11.describe });
+  ("C11", { gen = C11.gen; check = C11.check; search = C11.search; describe = C11.describe; tags = (fun _ _ -> []) });
+  ("C02", { gen = C02.gen; check = C02.check; search = C02.search; describe = C02.describe; tags = Evalcommon.tags });
 ]
 
 let bump tbl k = Hashtbl.replace tbl k (1 + (try Hashtbl.find tbl k with Not_found -> 0))
@@ -41,7 +43,7 @@ let () =
   | "check" ->
     let s = st argv.(2) in
     let total = ref 0 and nontrivial = ref 0 and fails = ref 0 and inconclusive = ref 0 in
-    let ops = Hashtbl.create 16 and sizes = Hashtbl.create 16 in
+    let ops = Hashtbl.create 16 and sizes = Hashtbl.create 16 and tags = Hashtbl.create 16 in
     let seen = Hashtbl.create 100000 and distinct_nt = ref 0 in
     (try
        while true do
@@ -59,6 +61,7 @@ let () =
               (match r with
                | Sexp.L [ Sexp.A ("timeout" | "abort") ] -> incr inconclusive; bump ops ("inconclusive:" ^ Sexp.to_string r)
                | _ ->
+                 List.iter (bump tags) (try s.tags c r with _ -> []);
                  let (v, nt) = s.check c r in
                  if nt then begin
                    incr nontrivial;
@@ -74,8 +77,8 @@ let () =
               Printf.printf "FAIL\tmismatch\t%s\t%s\tdriver-exception %s\n" cs rs (Printexc.to_string e))
        done
      with End_of_file -> ());
-    Printf.printf "STATS\t{\"total\":%d,\"nontrivial\":%d,\"distinct_nontrivial\":%d,\"fails\":%d,\"inconclusive\":%d,\"ops\":%s,\"sizes\":%s}\n"
-      !total !nontrivial !distinct_nt !fails !inconclusive (json_of_tbl ops) (json_of_tbl sizes)
+    Printf.printf "STATS\t{\"total\":%d,\"nontrivial\":%d,\"distinct_nontrivial\":%d,\"fails\":%d,\"inconclusive\":%d,\"ops\":%s,\"sizes\":%s,\"tags\":%s}\n"
+      !total !nontrivial !distinct_nt !fails !inconclusive (json_of_tbl ops) (json_of_tbl sizes) (json_of_tbl tags)
   | "search" ->
     let s = st argv.(2) in
     (try
